@@ -1,0 +1,14 @@
+//go:build verif
+
+// Contracts for the deductive checker in /verif (comment-only).
+
+package clock
+
+// The ticking goroutine computes adjusted % period: a zero period would crash it (C14).
+//@ func AlignedTick(period time.Duration, offset time.Duration, bufSize int) <-chan time.Time
+//@   property C14
+//@   trusted
+//@   fresh
+//@   requires[positive_period; C14] period > 0
+//@   requires bufSize >= 0
+//@   ensures result != nil
